@@ -69,6 +69,7 @@ func TestC13(t *testing.T) {
 		ev.ClassN(id, "rewrites local-alias", int64(info.LocalAlias))
 		ev.ClassN(id, "rewrites third-package-alias", int64(info.ThirdPkgAlias))
 		ev.ClassN(id, "rewrites parentheses", int64(info.Paren))
+		ev.ClassN(id, "rewrites of a method receiver (*(T), (*T), *LocalAlias)", int64(info.Recv))
 		ev.ClassN(id, "rewrites import-rename", int64(info.ImportRename))
 		ev.ClassN(id, "rewrites value<->pointer (param / literal / field)", int64(nvp))
 		for k := range ka {
